@@ -111,6 +111,44 @@ fn run(ctx: &Ctx, rep: &Report) {
             }
         }
     }
+    // entry counts 0..3 with unreferenced bytes at the end of either store (a header may announce
+    // more data than its entries use, including data with no entries at all)
+    let mut sweep: Vec<Vec<u8>> = Vec::new();
+    for sn in 0..=2usize {
+        for sslack in 0..=17usize {
+            for mn in [0usize, 1, 3] {
+                for mslack in [0usize, 1, 7, 8, 16, 33] {
+                    let sig_items: Vec<(u32, Val)> = (0..sn).map(|i| (tag::SIG_MD5 + 1000 * i as u32, Val::Bin(vec![0x55; 3 + i]))).collect();
+                    let (se, mut ss) = layout(&sig_items);
+                    ss.extend(std::iter::repeat(0xee).take(sslack));
+                    let main_items: Vec<(u32, Val)> = (0..mn).map(|i| (1000 + i as u32, Val::Str(format!("v{i}").into_bytes()))).collect();
+                    let (me, mut ms) = layout(&main_items);
+                    ms.extend(std::iter::repeat(0xdd).take(mslack));
+                    sweep.push(enc_package(&enc_lead("slack"), &enc_header(&se, &ss), &enc_header(&me, &ms), b"payload-bytes"));
+                }
+            }
+        }
+    }
+    for b in &sweep {
+        rep.eval(1);
+        match guard(|| Package::parse(&mut &b[..])) {
+            Ok(Ok(p)) => observe(rep, &mut local, "slack-sweep", &p, json!({"input_hex": hex::encode(b)})),
+            Ok(Err(_)) => *local.entry("rejected.slack-sweep".into()).or_insert(0) += 1,
+            Err(_) => *local.entry("panicked.slack-sweep(judged by C04)".into()).or_insert(0) += 1,
+        }
+    }
+    // every prefix of a few of those inputs: whatever the parser accepts must obey the property
+    for b in sweep.iter().step_by(41).chain([residue_package(5, 2), residue_package(0, 0)].iter()) {
+        for cut in 96..b.len() {
+            rep.eval(1);
+            let t = &b[..cut];
+            match guard(|| Package::parse(&mut &t[..])) {
+                Ok(Ok(p)) => observe_one(rep, &mut local, "accepted-prefix", &p, json!({"input_hex": hex::encode(t)})),
+                Ok(Err(_)) => *local.entry("rejected.prefix".into()).or_insert(0) += 1,
+                Err(_) => *local.entry("panicked.prefix(judged by C04)".into()).or_insert(0) += 1,
+            }
+        }
+    }
     rep.counts(&local);
     // built corpus, all four key types
     let n: u64 = ctx.tier.pick(300, 30_000);
